@@ -43,6 +43,7 @@ SCRIPTS = {
     'u1_fork_ar': [('new_update', 'u1', 't1', 3, 2), ('add_groups', 'u1', 1, [G(1, parent_abs=0), G(2, parent_in=1)]),
                    ('add_jobs', 'u1', 1, [J(1, abs_group=0), J(2, parents=[1], group=2), J(3, parents=[1], group=1, always_run=True)]),
                    ('commit_tail', 'u1', 1)],
+    'u1_single': [('new_update', 'u1', 't1', 1, 0), ('add_jobs', 'u1', 1, [J(1, abs_group=0)]), ('commit_tail', 'u1', 1)],
     # update 2 shapes (explored step by step)
     'u2_child_of_1': [('new_update', 'u1', 't2', 1, 0), ('add_jobs', 'u1', 2, [J(1, abs_parents=[1], abs_group=0)]), ('commit', 'u1', 2)],
     'u2_child_of_2_in_g1': [('new_update', 'u1', 't2', 1, 0), ('add_jobs', 'u1', 2, [J(1, abs_parents=[2], abs_group=1)]), ('commit', 'u1', 2)],
